@@ -223,6 +223,12 @@ def reader_side(ck, pid):
     ld = pyload.module("list_drf")
     # 1. listing grammar never matches a tmp. name (exhaustive over the bounded name grammar of C14)
     C14.grammar(ck, ld)
+    # ... and the function that applies the grammar to a directory listing decorates exactly the final names (never a tmp. file)
+    from checks import list_common, reader_common
+    list_common.decorate_contract(ck, ld)
+    if pid == "C09":
+        # a long-lived reader: what exists now is what it returns, whatever it was asked before (cached open file)
+        reader_common.read_cache_contract(ck, pyload.module("digital_rf_hdf5", symbolic=False))
     mod = pyload.module("digital_rf_hdf5")
     src = open(mod.__file__).read()
     tree = ast.parse(src)
